@@ -169,5 +169,11 @@ class SpooledTextFile(_io.TextIOBase):
         file = self._file
         self._path = self._get_unused_path()
         newfile = self._file = self._path.open(mode='x+')
-        newfile.write(file.getvalue())
-        newfile.seek(file.tell(), 0)
+        # The position of the mem buffer is a number of characters,
+        # which is not a valid position in the (encoded) text file.
+        contents = file.getvalue()
+        position = file.tell()
+        newfile.write(contents[:position])
+        position_in_new_file = newfile.tell()
+        newfile.write(contents[position:])
+        newfile.seek(position_in_new_file, 0)
